@@ -287,6 +287,9 @@ func TestVerifC13(t *testing.T) {
 			src = "adv"
 		}
 		n := vfN(300)
+		if adv && n > 1600 {
+			n = 1600 // bounded budget of the failing-input search
+		}
 		for i := 0; i < n; i++ {
 			ins = append(ins, c13Gen(root.Fork(i), i, adv))
 			ids, srcs = append(ids, fmt.Sprintf("%s-pl-%d", src, i)), append(srcs, src)
